@@ -21,6 +21,11 @@
 #define protected public
 #include "libavoid/libavoid.h"
 using namespace Avoid;
+#ifdef HAVE_H2
+// hook H2 (tools/hooks/H2.patch): structural-edit log of the hyperedge rerouter / improver, written between the
+// transaction's own records as lines starting with "H2 " (they precede the TX record of the transaction they belong to)
+namespace Avoid { extern FILE *verif_hyper_log; }
+#endif
 
 struct Scene {
     Router *r;
@@ -169,6 +174,7 @@ int main(int argc, char **argv)
 {
     std::ifstream in(argv[1]);
     std::string line;
+    setvbuf(stdout, NULL, _IOLBF, 0);      // a crash inside libavoid must not lose the op log written so far
     Scene sc; sc.r = nullptr;
     int tx = 0; bool dead = false; std::string sid;
     while (std::getline(in, line))
@@ -252,7 +258,14 @@ int main(int argc, char **argv)
             else if (cmd == "TX")
             {
                 std::map<const void *, unsigned> cBefore = sc.knownC, jBefore = sc.knownJ;
+#ifdef HAVE_H2
+                Avoid::verif_hyper_log = stdout;
+                printf("H2 TXBEGIN %d\n", tx);
+#endif
                 bool processed = sc.r->processTransaction();
+#ifdef HAVE_H2
+                Avoid::verif_hyper_log = NULL;
+#endif
                 dump(sc, tx++, processed, cBefore, jBefore);
                 snapshot(sc, sc.knownC, sc.knownJ);
                 sc.nreg = 0;
@@ -264,6 +277,9 @@ int main(int argc, char **argv)
             for (size_t k = 0; k < w.size(); ++k) if (w[k] == '\n') w[k] = '|';
             printf("ASSERT %s\n", w.c_str());
             dead = true;
+#ifdef HAVE_H2
+            Avoid::verif_hyper_log = NULL;
+#endif
         }
         fflush(stdout);
     }
